@@ -125,6 +125,49 @@ def well_formed(prog: list) -> bool:
     return cg.well_formed([op for op in prog if op[0] != "read"])
 
 
+# --------------------------------------------------------------------------- size bookkeeping
+
+
+class Size:
+    """upper estimate of the number of components and of loss elements per object.  Self-addition and
+    sums double an object; a few of them in a row make the exact model's matrices (one extra mode per
+    loss element) too large to report in reasonable time, so generators ask before they add."""
+
+    def __init__(self, max_w: int = 40, max_loss: int = 6) -> None:
+        self.w: dict = {}
+        self.loss: dict = {}
+        self.max_w, self.max_loss = max_w, max_loss
+
+    def prim(self, op: list) -> None:
+        cid = op[1]
+        self.w[cid] = self.w.get(cid, 0) + 1
+        k = {"bs": 2 if op[0] == "bs" and op[7] else 0, "ps": 1 if op[0] == "ps" and op[4] else 0, "loss": 1}.get(op[0], 0)
+        self.loss[cid] = self.loss.get(cid, 0) + k
+
+    def prim_op(self, op: list) -> list:
+        self.prim(op)
+        return op
+
+    def add(self, par: str, sub: str) -> bool:
+        w = self.w.get(par, 0) + self.w.get(sub, 0) + 1
+        ls = self.loss.get(par, 0) + self.loss.get(sub, 0)
+        if w > self.max_w or ls > self.max_loss:
+            return False
+        self.w[par], self.loss[par] = w, ls
+        return True
+
+    def copy(self, new: str, src: str) -> None:
+        self.w[new], self.loss[new] = self.w.get(src, 0), self.loss.get(src, 0)
+
+    def plus(self, new: str, a: str, b: str) -> bool:
+        w = self.w.get(a, 0) + self.w.get(b, 0)
+        ls = self.loss.get(a, 0) + self.loss.get(b, 0)
+        if w > self.max_w or ls > self.max_loss:
+            return False
+        self.w[new], self.loss[new] = w, ls
+        return True
+
+
 # --------------------------------------------------------------------------- building blocks
 
 
@@ -142,8 +185,11 @@ class Book:
         self.has_group: dict = {}
         self.ptab: dict = {}
         self.p_param = p_param
+        self.size = Size()
 
     def reg(self, cid: str, ports: int, free: int | None = None, grp: bool = False) -> None:
+        self.size.w.setdefault(cid, 0)
+        self.size.loss.setdefault(cid, 0)
         if cid not in self.ids:
             self.ids.append(cid)
         self.ports[cid] = ports
@@ -158,6 +204,7 @@ class Book:
     def unitary(self, cid: str, n: int) -> str:
         self.prog.append(["unitary", cid, cg.mat_json(cg.exact_unitary(self.rng, n))])
         self.reg(cid, n)
+        self.size.w[cid] = 1
         return cid
 
     def prim(self, cid: str, p_invalid: float = 0.0, k: int = 1) -> None:
@@ -165,6 +212,7 @@ class Book:
             if self.ports[cid] < 1:
                 return
             op = cg.rand_prim_op(self.rng, cid, self.ports[cid], p_invalid=p_invalid)
+            self.size.prim(op)
             self.prog.append(with_param(self.rng, op, self.ptab, self.p_param))
 
     def herald(self, cid: str, i: int | None = None, o: int | None = None, nph: int | None = None) -> None:
@@ -187,16 +235,21 @@ class Book:
         return self.rng.randint(1, room) if positive else 0
 
     def add(self, par: str, sub: str, m: int, group: bool) -> None:
+        if not self.size.add(par, sub):
+            return  # would grow beyond what the exact model reports in reasonable time
         self.prog.append(["add", par, sub, m, bool(group)])
         if group or self.has_group.get(sub):
             self.has_group[par] = True
 
     def copy(self, new: str, src: str) -> str:
+        self.size.copy(new, src)
         self.prog.append(["copy", new, src])
         self.reg(new, self.ports[src], self.free[src], self.has_group.get(src, False))
         return new
 
     def plus(self, new: str, a: str, b: str) -> str:
+        if not self.size.plus(new, a, b):
+            return self.copy(new, a)
         self.prog.append(["plus", new, a, b])
         self.reg(new, self.ports[a], self.ports[a], self.has_group.get(a, False) or self.has_group.get(b, False))
         return new
@@ -207,6 +260,7 @@ class Book:
         n = rng.choice([2, 2, 3])
         self.new(cid, n)
         self.prog.append(cg.op_bs(cid, 0, 1, *rng.choice(PYTH)))
+        self.size.w[cid] += 2
         if rng.random() < 0.5:
             self.prog.append(cg.op_ps(cid, rng.randrange(n), rng.choice(CIRCLE)))
         self.herald(cid, rng.randrange(n), rng.randrange(n), rng.choice([0, 1]))
